@@ -56,6 +56,7 @@ type Ctx struct {
 	memSorts  map[string]string
 	funDecls  []string
 	constGlobalsUsed []string
+	freshErrs        []string // results of errors.New / fmt.Errorf in this function
 	structIDs map[string]int
 	handUnfolded map[string]bool
 	abstractMul  bool
@@ -781,6 +782,13 @@ func (c *Ctx) Prelude() string {
 	sb.WriteString(specText)
 	for _, d := range c.decls {
 		sb.WriteString(d + "\n")
+	}
+	// an error value made by errors.New / fmt.Errorf during the call is a new object: it is none of the
+	// package-level error constants
+	for _, fe := range c.freshErrs {
+		for _, g := range c.constGlobalsUsed {
+			sb.WriteString(fmt.Sprintf("(assert (not (= %s %s)))\n", fe, g))
+		}
 	}
 	return sb.String()
 }
